@@ -49,7 +49,7 @@ MODELLED = ('spatial.get_normal_vector, _normalize_pixel_index_convention, _get_
             'None, number of slices, spacing, origin, slice axis)')
 STRATA = ['perm_all', 'regular', 'unsorted', 'dups', 'gaps', 'jitter', 'shear', 'scrambled', 'inplane', 'hint',
           'malformed', 'normal', 'series', 'plane_sort', 'sort_datasets', 'vol_series', 'vol_multiframe',
-          'mf_geometry', 'order_pair', 'int_positions']
+          'mf_geometry', 'order_pair', 'int_positions', 'tol_forward', 'mf_history']
 NOT_EXECUTED = ['Segmentation.get_volume (same _prepare_volume_positions_table path, covered by C01/C02 harnesses)',
                 'tiled (slide coordinate system) branch of get_volume: no stacking involved',
                 'slice_start / slice_end / as_indices of Image.get_volume (index standardisation: C03)',
@@ -490,6 +490,20 @@ def gen_cases(rng, tier):
         d['perm_seed'] = None
         d['meta'] = dict(d['meta'], note=d['meta']['note'] + ' (frames reordered)')
         cases.append(d)
+    # -- the tolerance that was REQUESTED is the one applied, through every entry point that forwards it:
+    #    spacing s clearly != 1 and one gap off by an amount that lies BETWEEN the two readings of the same
+    #    number t (t as a fraction of the spacing / t in mm; under declared gaps: t per index / t), or inside /
+    #    outside both
+    for via in ('gvp', 'series', 'vol_series', 'vol_multiframe', 'mf_geometry'):
+        for _ in range(max(10, N // 4)):
+            cases.append(_mk_tol(rng, via))
+    # -- ONE multi-frame object asked several questions (get_volume_geometry / get_volume with different
+    #    declarations and tolerances, repeated, interleaved): every answer must be the one the stack and the
+    #    declarations of THAT question call for
+    for target in ('image', 'seg'):
+        for mode in ('dups', 'dups', 'gap', 'dupgap', 'tol', 'tol', 'ok'):
+            for _ in range(max(4, N // 12)):
+                cases.append(_mk_history(rng, target, mode))
     # -- integer-valued stacks passed as Python ints (any array-like is documented as accepted)
     for _ in range(max(6, N // 6)):
         n = rng.randint(2, 5)
@@ -500,6 +514,11 @@ def gen_cases(rng, tier):
         c['pos'] = [[int(round(x - f)) for x, f in zip(p, frac)] for p in c['pos']]
         cases.append(c)
     return cases
+
+
+def _via(c):
+    """the entry point a case goes through: kinds that cover a DIMENSION (tol_forward) carry it in 'via'"""
+    return c.get('via') or c['kind']
 
 
 def _permuted(c, order):
@@ -550,6 +569,168 @@ def _mk_geometry(rng, target, mode, km, kd, n):
     c['opts']['missing'] = c['opts']['dups'] = None     # not used by this kind: see kw_missing / kw_dups
     c['perm_seed'] = rng.randrange(1, 10**6) if rng.random() < 0.6 else None
     c['rows'], c['cols'], c['resc'], c['amt'] = rng.randint(1, 3), rng.randint(1, 3), None, None
+    return c
+
+
+
+_TVALS = [1 / 64, 1 / 32, 1 / 16, 1 / 8, 0.05, 0.02]
+_TRI = (None, True, False)
+
+
+def _far_from_one(rng, q):
+    """a spacing for which `t x spacing` and `t` are clearly different amounts"""
+    while True:
+        s = F(q * rng.randint(1, 24), rng.choice([1, 2, 4, 8]))
+        if s >= 2 or F(1, 4) <= s <= F(1, 2):
+            return s
+
+
+def _role_jitter(rng, ks, s, t, gaps_reading, sign, where):
+    """per-plane jitter along the normal that separates the two readings of the tolerance value t.
+    Without declared gaps a consecutive spacing may deviate from the mean by atol (mm) or rtol x spacing: one
+    interior plane is moved by an amount between t and t x s.  With declared gaps the multiple of the spacing
+    may deviate from its integer k by atol or rtol x k (index units): the plane farthest along the positive
+    normal (index kmax) is moved outwards by between t and t x kmax spacings."""
+    n = len(ks)
+    jit = [F(0)] * n
+    t = F(t)
+    if gaps_reading:
+        kmax = max(ks) - min(ks)
+        lo, hi = sorted([t, t * kmax])
+        d = {'between': (lo + hi) / 2, 'inside': lo / 2, 'outside': 2 * hi}[where]
+        if d >= F(1, 2):
+            d = F(3, 8)
+        top = max(ks) if sign > 0 else min(ks)
+        jit[ks.index(top)] = sign * d * s
+    else:
+        lo, hi = sorted([t, t * s])
+        d = {'between': (lo + hi) / 2, 'inside': lo / 2, 'outside': 2 * hi}[where]
+        if d >= s / 2:
+            d = s * F(3, 8)
+        inner = [i for i, k in enumerate(ks) if k not in (min(ks), max(ks))]
+        jit[rng.choice(inner)] = d * rng.choice([1, -1])
+    return jit
+
+
+def _mk_tol(rng, via, where=None):
+    """tol_forward case through the entry point `via` (dispatch: see _via)"""
+    rc, cc = rng.choice(AXIS_ORIENTS if rng.random() < 0.5 else OBLIQUE_ORIENTS)
+    s = _far_from_one(rng, _den(_cross(rc, cc)))
+    t = rng.choice(_TVALS)
+    role = rng.choice(['rtol', 'atol'])
+    where = where or rng.choice(['between', 'between', 'between', 'inside', 'outside'])
+    ks = _perm(rng, rng.randint(4, 6))
+    vol = via in ('vol_series', 'vol_multiframe', 'mf_geometry')
+    conv, hand = ('DR', 'R') if vol else (rng.choice(CONVS), rng.choice(['R', 'L']))
+    target, km = None, None
+    if via == 'mf_geometry':
+        target, km = rng.choice(['image', 'seg']), rng.choice(_TRI)
+        gaps = _GEOMETRY_DEFAULTS[target]['missing'] if km is None else km
+    elif via == 'vol_series':
+        gaps = False
+    else:
+        gaps = rng.random() < 0.3
+    jit = _role_jitter(rng, ks, s, t, gaps, _sign_for(rc, cc, conv, hand), where)
+    o = {'rtol': t if role == 'rtol' else None, 'atol': t if role == 'atol' else None, 'missing': gaps}
+    if via == 'vol_multiframe':
+        o['dups'] = True
+    c = _mk(rng, 'tol_forward', ks, rc=rc, cc=cc, jit=jit, s=s, opts=o, conv=conv, hand=hand,
+            note=f'{role}={t}, deviation {where} the two readings, spacing {s}')
+    c['via'] = via
+    if via in ('series', 'vol_series'):
+        c['ds_hint'], c['orient_break'] = None, None
+    if vol:
+        c['rows'], c['cols'] = rng.randint(1, 3), rng.randint(1, 3)
+        if via == 'mf_geometry':
+            c['target'], c['kw_missing'], c['kw_dups'] = target, km, rng.choice(_TRI)
+            c['opts']['missing'] = c['opts']['dups'] = None
+            c['perm_seed'], c['resc'], c['amt'] = None, None, None
+        else:
+            _add_rescale(rng, c)
+    return c
+
+
+def _mk_history(rng, target, mode):
+    """mf_history case: one Image / Segmentation and a list of queries put to it one after the other.
+    mode = what the stack contains, hence which argument changes the answer: 'dups' (several frames per plane:
+    allow_duplicate_positions), 'gap' (allow_missing_positions), 'dupgap' (both), 'tol' (a gap off by an amount
+    between two tolerances: rtol / atol), 'ok'."""
+    n = rng.randint(2, 5)
+    ks = _perm(rng, n + (1 if mode in ('gap', 'dupgap') else 0))
+    if mode in ('gap', 'dupgap'):
+        ks.remove(rng.choice([1, max(ks) - 1]))
+    if mode in ('dups', 'dupgap'):
+        ks = ks * rng.randint(2, 3) if rng.random() < 0.6 else ks + [rng.choice(ks)]
+        rng.shuffle(ks)
+    rc, cc = rng.choice(AXIS_ORIENTS if rng.random() < 0.5 else OBLIQUE_ORIENTS)
+    jit, t = None, None
+    if mode == 'tol':
+        ks = _perm(rng, rng.randint(4, 6))
+        s = _far_from_one(rng, _den(_cross(rc, cc)))
+        t = rng.choice(_TVALS)
+        jit = _role_jitter(rng, ks, s, t, target == 'seg' and rng.random() < 0.5, _sign_for(rc, cc, 'DR', 'R'),
+                           'between')
+        if rng.random() < 0.3:
+            j = rng.randrange(len(ks))
+            ks, jit = ks + [ks[j]], jit + [jit[j]]        # and two frames on one of the planes
+    else:
+        s = None
+    c = _mk(rng, 'mf_history', ks, rc=rc, cc=cc, jit=jit, s=s, conv='DR', hand='R', note=mode)
+    c['opts']['hint'] = float(F(c['meta']['s'])) if rng.random() < 0.1 else None
+    c['opts']['missing'] = c['opts']['dups'] = None          # per query
+    c['target'] = target
+    # channel of every frame: the segment it belongs to (frames of one plane in different segments, as in
+    # a segmentation with overlapping segments; now and then all in one segment), 0 for an image
+    if target == 'seg':
+        seen = {}
+        c['segs'] = []
+        for k in ks:
+            seen[k] = seen.get(k, 0) + 1
+            c['segs'].append(seen[k])
+        if rng.random() < 0.15:
+            c['segs'] = [1] * len(ks)
+    else:
+        c['segs'] = [0] * len(ks)
+    c['rows'], c['cols'], c['resc'], c['amt'] = rng.randint(1, 3), rng.randint(1, 3), None, None
+
+    def tol():
+        if mode == 'tol':
+            return rng.choice([(None, None), (t, None), (None, t), (t, None), (None, t)])
+        r = rng.random()
+        return (None, None) if r < 0.7 else (1 / 64, 1 / 8) if r < 0.75 else _tol(rng)
+
+    def q(op=None, km='?', kd='?', rt_at=None):
+        rt, at = rt_at if rt_at is not None else tol()
+        return {'op': op or rng.choice(['geometry', 'geometry', 'geometry', 'volume']),
+                'km': rng.choice(_TRI) if km == '?' else km, 'kd': rng.choice(_TRI) if kd == '?' else kd,
+                'rtol': rt, 'atol': at}
+    # two queries that differ ONLY in the argument that matters for this stack (either order), ...
+    a = q(op=rng.choice(['geometry', 'geometry', 'volume']))
+    b = dict(a, op=rng.choice(['geometry', 'geometry', a['op']]))
+    if mode in ('dups', 'dupgap') and rng.random() < 0.8:
+        a['kd'], b['kd'], b['op'] = rng.choice([(None, False), (True, False), (False, None), (False, True)]) + ('geometry',)
+        if a['kd'] is False:
+            a['op'] = 'geometry'
+    elif mode in ('gap', 'dupgap'):
+        a['km'], b['km'] = rng.choice([(True, False), (False, True), (None, not _GEOMETRY_DEFAULTS[target]['missing']),
+                                       (not _GEOMETRY_DEFAULTS[target]['missing'], None)])
+    elif mode == 'tol':
+        (a['rtol'], a['atol']), (b['rtol'], b['atol']) = rng.choice([((t, None), (None, t)), ((None, t), (t, None)),
+                                                                     ((None, None), (t, None)), ((None, t), (None, None))])
+    qs = [a, b]
+    # ... then further questions, the first one again, the volume
+    for _ in range(rng.randint(0, 3)):
+        qs.append(q())
+    if rng.random() < 0.6:
+        qs.append(dict(a))
+    if rng.random() < 0.4:
+        qs.append(q(op='volume', km=rng.choice([None, a['km']]), rt_at=(a['rtol'], a['atol'])))
+    if rng.random() < 0.2:
+        qs.insert(0, q())
+    for x in qs:
+        if x['op'] == 'volume':
+            x['kd'] = None                 # get_volume has no such argument
+    c['queries'] = qs
     return c
 
 
@@ -665,13 +846,15 @@ def _enhanced(c):
 
 
 def _seg_dataset(c):
-    """binary segmentation (from the shipped fixture) whose frames are the planes of the case"""
+    """binary segmentation (from the shipped fixture) whose frames are the planes of the case; with c['segs']
+    frame f belongs to segment segs[f] (segments 1..max described) and has exactly pixel number f set"""
     import numpy as np
     import synth
     from copy import deepcopy
     from pydicom.pixels.utils import pack_bits
     ds = synth.base('seg_image_ct_binary.dcm')
     n = len(c['pos'])
+    segs = c.get('segs')
     sh = ds.SharedFunctionalGroupsSequence[0]
     sh.PlaneOrientationSequence[0].ImageOrientationPatient = _orient(c)
     pm = sh.PixelMeasuresSequence[0]
@@ -679,16 +862,27 @@ def _seg_dataset(c):
         del pm.SpacingBetweenSlices
     if c['opts']['hint'] is not None:
         pm.SpacingBetweenSlices = c['opts']['hint']
+    if segs is not None:
+        described = []
+        for k in range(1, max(segs) + 1):
+            it = deepcopy(ds.SegmentSequence[0])
+            it.SegmentNumber, it.SegmentLabel = k, f'segment {k}'
+            described.append(it)
+        ds.SegmentSequence = described
     tmpl = ds.PerFrameFunctionalGroupsSequence[0]
     items = []
+    px = np.zeros((n, ds.Rows * ds.Columns), np.uint8)
     for f, p in enumerate(c['pos']):
         it = deepcopy(tmpl)
         it.PlanePositionSequence[0].ImagePositionPatient = [float(x) for x in p]
-        it.FrameContentSequence[0].DimensionIndexValues = [1, f + 1]
+        it.FrameContentSequence[0].DimensionIndexValues = [1 if segs is None else segs[f], f + 1]
+        if segs is not None:
+            it.SegmentIdentificationSequence[0].ReferencedSegmentNumber = segs[f]
+            px[f, f] = 1
         items.append(it)
     ds.PerFrameFunctionalGroupsSequence = items
     ds.NumberOfFrames = n
-    ds.PixelData = pack_bits(np.zeros(n * ds.Rows * ds.Columns, np.uint8))
+    ds.PixelData = pack_bits(px.flatten())
     return ds
 
 
@@ -716,6 +910,34 @@ def _canon_geometry(g):
     return [int(g.spatial_shape[0]), float(g.spacing[0]), g.affine[:3, 3].tolist(), g.affine[:3, 0].tolist()]
 
 
+def _ask(obj, c, q):
+    """one query put to the object of an mf_history case"""
+    import numpy as np
+    kw = dict(rtol=q['rtol'], atol=q['atol'])
+    if q['km'] is not None:
+        kw['allow_missing_positions'] = q['km']
+    if q['op'] == 'geometry':
+        if q['kd'] is not None:
+            kw['allow_duplicate_positions'] = q['kd']
+        return _canon_geometry(obj.get_volume_geometry(**kw))
+    v = obj.get_volume(**kw)
+    n = len(c['pos'])
+    if c['target'] == 'seg':
+        # array[slice, row, column, segment]: frame f is the one with pixel number f - 1 set
+        a = np.asarray(v.array)
+        a = a.reshape(a.shape[0], -1, a.shape[-1])
+        slots = []
+        for k in range(a.shape[0]):
+            row = []
+            for ch in range(a.shape[2]):
+                hit = np.flatnonzero(a[k, :, ch])
+                row.append(None if len(hit) == 0 else int(hit[0]) + 1 if len(hit) == 1 and hit[0] < n else -1)
+            slots.append(row)
+    else:
+        slots = [[i] for i in _ids_of(v.array, c, n)]
+    return [int(v.spatial_shape[0]), float(v.spacing[0]), v.affine[:3, 3].tolist(), v.affine[:3, 0].tolist(), slots]
+
+
 def _ids_of(arr, c, n):
     """identifier of every slice of an assembled ARRAY (None = empty slot, -1 = the slice is not the
     ground truth  stored_k * slope_k + intercept_k  of any input instance / frame)"""
@@ -737,7 +959,7 @@ def run_impl(c):
     import numpy as np
     from highdicom import spatial
     import highdicom as hd
-    k = c['kind']
+    k = _via(c)
     with warnings.catch_warnings():
         warnings.simplefilter('ignore')
         if k == 'normal':
@@ -779,6 +1001,9 @@ def run_impl(c):
                 ids = _ids_of(v.array, c, len(c['pos']))
                 return [ids, float(v.spacing[0]), v.affine[:3, 3].tolist(), v.affine[:3, 0].tolist()]
             return catch(f)
+        if k == 'mf_history':
+            obj = _geometry_image(c)          # ONE object for the whole history
+            return [catch(lambda: _ask(obj, c, q)) for q in c['queries']]
         if k == 'mf_geometry':
             kw = _geometry_kwargs(c)
             out = catch(lambda: _canon_geometry(_geometry_image(c).get_volume_geometry(**kw)))
@@ -845,7 +1070,7 @@ def _undecided(c):
     """the Fraction spec cannot decide the case (within 1e-6 of a tolerance threshold, or the outcome
     depends on the order of planes at equal distance): excluded from the model comparison, counted
     as trivial"""
-    k = c['kind']
+    k = _via(c)
     if k in ('normal', 'plane_sort', 'sort_datasets'):
         return False
     if c.get('orient_break') is not None or len(c['pos']) < 2:
@@ -860,11 +1085,13 @@ def _undecided(c):
         return _spec(D, L, dict(c['opts'], sort=True, dups=True, enforce=False), c['opts']['hint']) == ANY
     if k == 'mf_geometry':
         return _geometry_expected(c)[2] == ANY
+    if k == 'mf_history':
+        return any(_query_expected(c, q)[2] == ANY for q in c['queries'])
     return _expected(c) == ANY
 
 
 def coq_term(c):
-    k = c['kind']
+    k = _via(c)
     if _undecided(c):
         return None
     rc, cc = _v3(_fl(c['rc'])), _v3(_fl(c['cc']))
@@ -891,6 +1118,12 @@ def coq_term(c):
         ob = lambda x: 'None' if x is None else f'(Some {_b(x)})'
         return (f"(run_mf_geometry {ps} {rc} {cc} {_oq(c['opts']['hint'])} {_oq(c['opts']['rtol'])} "
                 f"{_oq(c['opts']['atol'])} {_b(c['target'] == 'seg')} {ob(c['kw_missing'])} {ob(c['kw_dups'])})")
+    if k == 'mf_history':
+        ob = lambda x: 'None' if x is None else f'(Some {_b(x)})'
+        qs = [f"QGeom {_oq(q['rtol'])} {_oq(q['atol'])} {ob(q['km'])} {ob(q['kd'])}" if q['op'] == 'geometry' else
+              f"QVol {_oq(q['rtol'])} {_oq(q['atol'])} {ob(q['km'])}" for q in c['queries']]
+        return (f"(run_mf_history {common.zl(c['segs'])} {common.zl(_out_channels(c))} {ps} {rc} {cc} "
+                f"{_oq(c['opts']['hint'])} {_b(c['target'] == 'seg')} [{'; '.join(qs)}])")
     if k == 'order_pair':
         ps2 = '[' + '; '.join(_v3(c['pos'][i]) for i in c['perm']) + ']'
         o = _opts(c, c['opts']['hint'])
@@ -1091,7 +1324,7 @@ def _by_rank(c):
 
 def oracle(c, out):
     import numpy as np
-    k = c['kind']
+    k = _via(c)
     if isinstance(out, str):
         return out
     if k == 'normal':
@@ -1191,6 +1424,56 @@ def oracle(c, out):
             return f'{what}: {nsl} slices, expected {max(exp[2]) + 1}'
         r = _geom_check(c, sign, sp, org, sv, exp[1], c['pos'][exp[2].index(0)])
         return f'{what}: {r}' if r else None
+    if k == 'mf_history':
+        if len(out) != len(c['queries']):
+            return f'{len(out)} answers to {len(c["queries"])} queries'
+        cls = 'Segmentation' if c['target'] == 'seg' else 'Image'
+        for i, (q, a) in enumerate(zip(c['queries'], out)):
+            sign, (em, ed), exp = _query_expected(c, q)
+            args = ', '.join(f'{n}={q[key]}' for n, key in (('rtol', 'rtol'), ('atol', 'atol'),
+                                                           ('allow_missing_positions', 'km'),
+                                                           ('allow_duplicate_positions', 'kd')) if q[key] is not None)
+            what = (f"query {i + 1} of {len(out)} on one {cls}: "
+                    f"{'get_volume_geometry' if q['op'] == 'geometry' else 'get_volume'}({args}) "
+                    f"[gaps {'allowed' if em else 'not allowed'}, duplicates {'allowed' if ed else 'not allowed'}]"
+                    + (f" after {i} earlier quer{'y' if i == 1 else 'ies'}" if i else ''))
+            # the same question asked twice of the same object gets the same answer (whatever the spec says)
+            for j in range(i):
+                if c['queries'][j] == q and out[j] != a:
+                    return f'{what}: {a!r}, but the same query got {out[j]!r} as query {j + 1}'
+            if exp == ANY:
+                continue
+            if q['op'] == 'geometry':
+                if exp[0] == 'err' and exp[1] != 'RuntimeError':
+                    if a != Err(exp[1]):
+                        return f'{what}: expected {exp[1]}, got {a!r}'
+                    continue
+                if exp[0] in ('err', 'none'):
+                    if a is not None:
+                        return f'{what}: stack must be rejected (None), got {a!r}'
+                    continue
+            else:
+                if exp[0] == 'err' or exp[0] == 'none':
+                    want = exp[1] if exp[0] == 'err' else 'RuntimeError'
+                    if a != Err(want):
+                        return f'{what}: expected {want}, got {a!r}'
+                    continue
+            if a is None or isinstance(a, Err):
+                return (f'{what}: regular stack refused ({a!r}), expected {max(exp[2]) + 1} slices with spacing '
+                        f'{float(exp[1])}')
+            if a[0] != max(exp[2]) + 1:
+                return f'{what}: {a[0]} slices, expected {max(exp[2]) + 1}'
+            r = _geom_check(c, sign, a[1], a[2], a[3], exp[1], c['pos'][exp[2].index(0)])
+            if r:
+                return f'{what}: {r}'
+            if q['op'] == 'volume':
+                chans = _out_channels(c)
+                want = [[None] * len(chans) for _ in range(max(exp[2]) + 1)]
+                for f, (vi, ch) in enumerate(zip(exp[2], c['segs'])):
+                    want[vi][chans.index(ch)] = f + 1
+                if a[4] != want:
+                    return f'{what}: frames placed {a[4]} (slice x channel), expected {want}'
+        return None
     if k == 'order_pair':
         out1, out2 = out
         d = _permuted(c, c['perm'])
@@ -1227,6 +1510,25 @@ def _geometry_expected(c):
     return sign, (em, ed), exp
 
 
+def _out_channels(c):
+    """channels of the array assembled by get_volume: the described segments / the single channel of an image"""
+    return list(range(1, max(c['segs']) + 1)) if c['target'] == 'seg' else [0]
+
+
+def _query_expected(c, q):
+    """(sign, (gaps allowed, duplicates allowed), verdict of the spec) for ONE query of an mf_history case:
+    from the stack and the arguments of that query only.  get_volume: duplicates of positions are always
+    allowed (frames of different segments share planes) but frames must be identified by (position, channel)."""
+    dflt = _GEOMETRY_DEFAULTS[c['target']]
+    em = dflt['missing'] if q['km'] is None else q['km']
+    ed = True if q['op'] == 'volume' or q['kd'] is None else q['kd']
+    sign, D, L = _by_rank(c)
+    if q['op'] == 'volume' and len({(ch, tuple(p)) for ch, p in zip(c['segs'], c['pos'])}) < len(c['pos']):
+        return sign, (em, ed), ('err', 'RuntimeError')
+    o = dict(c['opts'], rtol=q['rtol'], atol=q['atol'], sort=True, missing=em, dups=ed, enforce=False)
+    return sign, (em, ed), _spec(D, L, o, c['opts']['hint'])
+
+
 def _geom_check(c, sign, sp, org, sv, want_sp, want_org):
     import numpy as np
     if abs(sp - float(want_sp)) > 1e-9 * (1 + float(want_sp)):
@@ -1240,7 +1542,7 @@ def _geom_check(c, sign, sp, org, sv, want_sp, want_org):
 
 
 def nontrivial(c, out):
-    k = c['kind']
+    k = _via(c)
     if k == 'normal':
         return True
     if len({tuple(p) for p in c['pos']}) < 2:
@@ -1251,6 +1553,9 @@ def nontrivial(c, out):
 
 
 def shrink(c):
+    if c.get('queries') and len(c['queries']) > 1:
+        for i in range(len(c['queries'])):
+            yield dict(c, queries=c['queries'][:i] + c['queries'][i + 1:])
     if 'pos' not in c or len(c['pos']) <= 1:
         return
     for i in range(len(c['pos'])):
@@ -1260,6 +1565,8 @@ def shrink(c):
                            lat=c['meta']['lat'][:i] + c['meta']['lat'][i + 1:]))
         if d.get('resc') is not None:
             d['resc'] = c['resc'][:i] + c['resc'][i + 1:]
+        if d.get('segs') is not None:
+            d['segs'] = c['segs'][:i] + c['segs'][i + 1:]
         if d.get('perm') is not None:
             d['perm'] = [j - (j > i) for j in c['perm'] if j != i]
         if d.get('orient_break') is not None:
